@@ -278,10 +278,11 @@ pub fn to_ndjson(job: &EngineJob, r: &EngineRun, out: &mut Vec<String>) {
     );
     let net = r.net.borrow();
     for e in &net.log {
-        out.push(
-            json!({"ev": e.ev, "p": e.p, "d": e.d, "q": e.q, "ph": e.ph, "len": e.len, "ok": e.ok})
-                .to_string(),
-        );
+        let mut v = json!({"ev": e.ev, "p": e.p, "d": e.d, "q": e.q, "ph": e.ph, "len": e.len, "ok": e.ok});
+        if let Some(s) = &e.some {
+            v["some"] = json!(s);
+        }
+        out.push(v.to_string());
     }
     for pr in &r.results {
         out.push(
